@@ -336,16 +336,17 @@ LineMap(e, i) ==
     ELSE [k \in 1..Len(RenDir(e)) |-> <<i, 0>>]
 
 (* lines of the journal with, for each entry, its first line (1-based) *)
-RECURSIVE Layout(_, _, _, _, _)
-Layout(es, i, lines, firsts, pmap) ==
+(* tight = no blank line is written between entries: an unindented line ends the transaction above it *)
+RECURSIVE Layout(_, _, _, _, _, _)
+Layout(es, i, lines, firsts, pmap, tight) ==
     IF i > Len(es) THEN [lines |-> lines, firsts |-> firsts, pmap |-> pmap]
     ELSE LET r == RenEntry(es[i])
-             sep == IF i > 1 /\ (IsTx(es[i - 1]) \/ IsTx(es[i])) THEN <<Empty>> ELSE <<>>
+             sep == IF ~tight /\ i > 1 /\ (IsTx(es[i - 1]) \/ IsTx(es[i])) THEN <<Empty>> ELSE <<>>
          IN Layout(es, i + 1, lines \o sep \o r, Append(firsts, Len(lines) + Len(sep) + 1),
-                   pmap \o (IF Len(sep) = 0 THEN <<>> ELSE <<<<0, 0>>>>) \o LineMap(es[i], i))
+                   pmap \o (IF Len(sep) = 0 THEN <<>> ELSE <<<<0, 0>>>>) \o LineMap(es[i], i), tight)
 
-Rendered(es) ==
-    LET lay == Layout(es, 1, <<>>, <<>>, <<>>) IN
+RenderedT(es, tight) ==
+    LET lay == Layout(es, 1, <<>>, <<>>, <<>>, tight) IN
     [ lines  |-> [i \in 1..Len(lay.lines) |-> lay.lines[i].s],
       lex    |-> [i \in 1..Len(lay.lines) |-> lay.lines[i].lex],
       u16    |-> [i \in 1..Len(lay.lines) |-> Len(lay.lines[i].s)],
@@ -353,6 +354,7 @@ Rendered(es) ==
       firsts |-> lay.firsts,
       pmap   |-> lay.pmap,
       abs    |-> [i \in 1..Len(es) |-> AbsEntry(es[i])] ]
+Rendered(es) == RenderedT(es, FALSE)
 
 (* ---- helpers for writing choice records ----------------------------------------------------- *)
 D(y, m, d) == [y |-> y, m |-> m, d |-> d, sep |-> "-", pad |-> TRUE]
